@@ -140,3 +140,8 @@ Definition iset_name (s : iset) : string :=
   match s with Frontier => "frontier" | Homestead => "homestead" | Byzantium => "byzantium"
              | Constantinople => "constantinople" | Spring => "spring" end.
 
+
+(* the rules part of a built-in configuration as regenerated (gen_rules) *)
+Definition rcfg_of (g : genrules) : rulescfg :=
+  {| rc_homestead := gr_homestead g; rc_eip150 := gr_eip150 g; rc_eip155 := gr_eip155 g;
+     rc_eip158 := gr_eip158 g; rc_byzantium := gr_byzantium g |}.
